@@ -20,6 +20,7 @@ import (
 
 	"nvharness/lib/c12facts"
 	"nvharness/lib/c12sched"
+	"nvharness/lib/c13run"
 	"nvharness/lib/corr"
 	"nvharness/lib/gofacts"
 	_ "nvharness/lib/quiet"
@@ -92,6 +93,9 @@ func valName(v interface{}, err error, closed error) string {
 		}
 		return "err:" + err.Error()
 	}
+	if v == nil {
+		return "v:nil"
+	}
 	if i, ok := v.(int); ok {
 		return "v:" + strconv.Itoa(i)
 	}
@@ -100,14 +104,14 @@ func valName(v interface{}, err error, closed error) string {
 
 type qQ struct{ q *pq.Q }
 
-func (a qQ) add(x int) string { return errName(a.q.AddReq(x), pq.ErrClosed, pq.ErrReqQFull, nil) }
+func (a qQ) add(x int) string { return errName(a.q.AddReq(item(x)), pq.ErrClosed, pq.ErrReqQFull, nil) }
 func (a qQ) prior(x int) (string, bool) {
-	return errName(a.q.AddPriorReq(x), pq.ErrClosed, pq.ErrReqQFull, nil), true
+	return errName(a.q.AddPriorReq(item(x)), pq.ErrClosed, pq.ErrReqQFull, nil), true
 }
 func (a qQ) addc(int) (string, bool)   { return "", false }
 func (a qQ) priorc(int) (string, bool) { return "", false }
 func (a qQ) addany(x int) (string, bool) {
-	return errName(a.q.AddReqAnyway(x, 2*time.Millisecond), pq.ErrClosed, pq.ErrReqQFull, nil), true
+	return errName(a.q.AddReqAnyway(item(x), 2*time.Millisecond), pq.ErrClosed, pq.ErrReqQFull, nil), true
 }
 func (a qQ) addcany(x int) (string, bool) { return "", false }
 func (a qQ) pop() string                  { v, e := a.q.Pop(); return valName(v, e, pq.ErrClosed) }
@@ -120,14 +124,16 @@ func (a qQ) close()   { a.q.Close() }
 
 type asyncQ struct{ q *async.Q }
 
-func (a asyncQ) add(x int) string { return errName(a.q.Add(x), async.ErrClosed, async.ErrFull, nil) }
+func (a asyncQ) add(x int) string {
+	return errName(a.q.Add(item(x)), async.ErrClosed, async.ErrFull, nil)
+}
 func (a asyncQ) prior(x int) (string, bool) {
-	return errName(a.q.AddPrior(x), async.ErrClosed, async.ErrFull, nil), true
+	return errName(a.q.AddPrior(item(x)), async.ErrClosed, async.ErrFull, nil), true
 }
 func (a asyncQ) addc(int) (string, bool)   { return "", false }
 func (a asyncQ) priorc(int) (string, bool) { return "", false }
 func (a asyncQ) addany(x int) (string, bool) {
-	return errName(a.q.AddAnyway(x, 2*time.Millisecond), async.ErrClosed, async.ErrFull, nil), true
+	return errName(a.q.AddAnyway(item(x), 2*time.Millisecond), async.ErrClosed, async.ErrFull, nil), true
 }
 func (a asyncQ) addcany(x int) (string, bool) { return "", false }
 func (a asyncQ) pop() string                  { v, e := a.q.Pop(); return valName(v, e, async.ErrClosed) }
@@ -140,14 +146,16 @@ func (a asyncQ) close()   { a.q.Close() }
 
 type muxQ struct{ q *mux.Q }
 
-func (a muxQ) add(x int) string { return errName(a.q.AddReq(x), mux.ErrClosed, mux.ErrQFull, nil) }
+func (a muxQ) add(x int) string {
+	return errName(a.q.AddReq(item(x)), mux.ErrClosed, mux.ErrQFull, nil)
+}
 func (a muxQ) prior(x int) (string, bool) {
-	return errName(a.q.AddPriorReq(x), mux.ErrClosed, mux.ErrQFull, nil), true
+	return errName(a.q.AddPriorReq(item(x)), mux.ErrClosed, mux.ErrQFull, nil), true
 }
 func (a muxQ) addc(int) (string, bool)   { return "", false }
 func (a muxQ) priorc(int) (string, bool) { return "", false }
 func (a muxQ) addany(x int) (string, bool) {
-	return errName(a.q.AddReqAnyway(x, 2*time.Millisecond), mux.ErrClosed, mux.ErrQFull, nil), true
+	return errName(a.q.AddReqAnyway(item(x), 2*time.Millisecond), mux.ErrClosed, mux.ErrQFull, nil), true
 }
 func (a muxQ) addcany(x int) (string, bool) { return "", false }
 func (a muxQ) pop() string                  { v, e := a.q.Pop(); return valName(v, e, mux.ErrClosed) }
@@ -161,22 +169,22 @@ func (a muxQ) close()   { a.q.Close() }
 type mqQ struct{ q *mq.MQ }
 
 func (a mqQ) add(x int) string {
-	return errName(a.q.AddReq(x), mq.ErrClosed, mq.ErrReqQFull, mq.ErrCtrlQFull)
+	return errName(a.q.AddReq(item(x)), mq.ErrClosed, mq.ErrReqQFull, mq.ErrCtrlQFull)
 }
 func (a mqQ) prior(x int) (string, bool) {
-	return errName(a.q.AddPriorReq(x), mq.ErrClosed, mq.ErrReqQFull, mq.ErrCtrlQFull), true
+	return errName(a.q.AddPriorReq(item(x)), mq.ErrClosed, mq.ErrReqQFull, mq.ErrCtrlQFull), true
 }
 func (a mqQ) addc(x int) (string, bool) {
-	return errName(a.q.AddCtrl(x), mq.ErrClosed, mq.ErrReqQFull, mq.ErrCtrlQFull), true
+	return errName(a.q.AddCtrl(item(x)), mq.ErrClosed, mq.ErrReqQFull, mq.ErrCtrlQFull), true
 }
 func (a mqQ) priorc(x int) (string, bool) {
-	return errName(a.q.AddPriorCtrl(x), mq.ErrClosed, mq.ErrReqQFull, mq.ErrCtrlQFull), true
+	return errName(a.q.AddPriorCtrl(item(x)), mq.ErrClosed, mq.ErrReqQFull, mq.ErrCtrlQFull), true
 }
 func (a mqQ) addany(x int) (string, bool) {
-	return errName(a.q.AddReqAnyway(x, 2*time.Millisecond), mq.ErrClosed, mq.ErrReqQFull, mq.ErrCtrlQFull), true
+	return errName(a.q.AddReqAnyway(item(x), 2*time.Millisecond), mq.ErrClosed, mq.ErrReqQFull, mq.ErrCtrlQFull), true
 }
 func (a mqQ) addcany(x int) (string, bool) {
-	return errName(a.q.AddCtrlAnyway(x, 2*time.Millisecond), mq.ErrClosed, mq.ErrReqQFull, mq.ErrCtrlQFull), true
+	return errName(a.q.AddCtrlAnyway(item(x), 2*time.Millisecond), mq.ErrClosed, mq.ErrReqQFull, mq.ErrCtrlQFull), true
 }
 func (a mqQ) pop() string { v, e := a.q.Pop(); return valName(v, e, mq.ErrClosed) }
 func (a mqQ) popany() (string, bool) {
@@ -240,6 +248,24 @@ func (r *runner) hit(site, what, detail string) {
 	}
 	r.seen[key] = true
 	r.hits = append(r.hits, corr.Hit{Key: key, What: detail})
+}
+
+// parseItem: a positive number, or `nil` (value 0 in the reference; a legal interface{} item — not for SyncQueue, whose
+// Pop/TryPop cannot tell a nil item from "closed").
+func parseItem(s string, noNil bool) (int, bool) {
+	if s == "nil" {
+		return 0, !noNil
+	}
+	n, ok := atoiStrict(s, false)
+	return n, ok && n > 0
+}
+
+// item is what is handed to the queue: the number, or an untyped nil for 0.
+func item(x int) interface{} {
+	if x == 0 {
+		return nil
+	}
+	return x
 }
 
 func atoiStrict(s string, neg bool) (int, bool) {
@@ -333,6 +359,7 @@ func (r *runner) blocking(fn func() string) string {
 	d, res := t.Done()
 	if !d {
 		r.dead = "stuck"
+		r.hit("Pop", "blocked-pop-not-woken-by-add", "a Pop blocked on the empty open queue stayed parked after an item was added")
 		return "stuck"
 	}
 	if res != "v:"+strconv.Itoa(sentinel) {
@@ -349,6 +376,10 @@ func (r *runner) line(l string) string {
 	if f[0] == "new" {
 		return r.create(f)
 	}
+	if f[0] == "cnew" { // a concurrency script starts with `cnew` as its FIRST line; anywhere else it is an ill-formed `new`
+		r.lq, r.pq, r.kind = nil, nil, "none"
+		return "bad-op"
+	}
 	if r.lq == nil && r.pq == nil {
 		return "bad-op"
 	}
@@ -364,7 +395,7 @@ func (r *runner) line(l string) string {
 		if len(f) != 2 {
 			return 0, false
 		}
-		return atoiStrict(f[1], false)
+		return parseItem(f[1], isSync)
 	}
 	empty := len(sh.ctrl)+len(sh.req) == 0
 	switch f[0] {
@@ -432,11 +463,40 @@ func (r *runner) line(l string) string {
 			}
 		}
 		return res
+	case "addn":
+		// `addn n x0`: the adds x0 … x0+n-1
+		if len(f) != 3 {
+			return "bad-op"
+		}
+		n, ok1 := atoiStrict(f[1], false)
+		x0, ok2 := atoiStrict(f[2], false)
+		if !ok1 || !ok2 || n > 100000 || x0 <= 0 {
+			return "bad-op"
+		}
+		k := 0
+		for i := 0; i < n; i++ {
+			if res := r.line("add " + strconv.Itoa(x0+i)); res == "ok" {
+				k++
+			}
+		}
+		return "ok=" + strconv.Itoa(k)
+	case "drain":
+		// SyncQueue: TryPop until the buffer is empty (each result goes through the order / conservation monitors)
+		if len(f) != 1 || !isSync {
+			return "bad-op"
+		}
+		k := 0
+		for n := len(sh.req); n > 0; n-- {
+			if res := r.line("trypop"); strings.HasPrefix(res, "v:") {
+				k++
+			}
+		}
+		return "n:" + strconv.Itoa(k)
 	case "addany", "addcany":
 		if len(f) != 3 || (f[2] != "p" && f[2] != "c") {
 			return "bad-op"
 		}
-		x, ok := atoiStrict(f[1], false)
+		x, ok := parseItem(f[1], false)
 		if !ok || isSync || (f[0] == "addcany" && !isMQ) {
 			return "bad-op"
 		}
@@ -761,7 +821,7 @@ func (r *runner) checkPop(site, res string, drains, empty, isMQ bool) {
 			from = &sh.ctrl
 		}
 		want = (*from)[0]
-		if res != "v:"+strconv.Itoa(want) {
+		if res != showItem(want) {
 			what := "order"
 			if v, ok := parseVal(res); ok && !contains(sh.ctrl, v) && !contains(sh.req, v) {
 				what = "lost-duplicated-or-invented-item"
@@ -780,9 +840,19 @@ func (r *runner) checkPop(site, res string, drains, empty, isMQ bool) {
 	}
 }
 
+func showItem(x int) string {
+	if x == 0 {
+		return "v:nil"
+	}
+	return "v:" + strconv.Itoa(x)
+}
+
 func parseVal(res string) (int, bool) {
 	if !strings.HasPrefix(res, "v:") {
 		return 0, false
+	}
+	if res == "v:nil" {
+		return 0, true
 	}
 	n, err := strconv.Atoi(res[2:])
 	return n, err == nil
@@ -886,6 +956,12 @@ func (r *runner) priLine(f []string) string {
 }
 
 func runCase(c corr.Case) (res corr.Result) {
+	if len(c.Lines) > 0 && strings.HasPrefix(c.Lines[0], "cnew ") {
+		// a concurrency script: blocking consumers, bursts, quiescence monitors — the scheduler-driven runner shared
+		// with C13 (its hits are reported under C12 keys)
+		lines := append([]string{strings.TrimPrefix(c.Lines[0], "c")}, c.Lines[1:]...)
+		return c13run.RunCase("C12", corr.Case{Lines: lines, Tag: c.Tag})
+	}
 	r := &runner{s: sched.New(), seen: map[string]bool{}}
 	defer func() {
 		if p := recover(); p != nil {
@@ -933,7 +1009,13 @@ func newLine(r *rng.R, kind string) string {
 func genScript(r *rng.R, kind string, n int) corr.Case {
 	lines := []string{newLine(r, kind)}
 	next := 1
-	item := func() string { next++; return strconv.Itoa(next - 1) }
+	item := func() string {
+		if kind != "syncq" && kind != "priq" && r.Chance(1, 10) {
+			return "nil" // nil is a legal item (interface{}); it counts like any other in order and conservation
+		}
+		next++
+		return strconv.Itoa(next - 1)
+	}
 	extreme := r.Chance(1, 3) // a third of the PriQueue histories mix in extreme priorities
 	size, closed := 0, false  // rough estimate, only steers the generator (never decides a result)
 	closeAt := -1             // at most one close, in the second half (a third of the histories never close)
@@ -1069,9 +1151,62 @@ func genDrain(r *rng.R, kind string) corr.Case {
 	return corr.Case{Tag: "drain-" + kind, Lines: lines}
 }
 
-var junk = []string{"addany 1", "addany 1 x", "addany x p", "addcany 2 p", "addany 3 p", "size?", "waitclose", "waitclear", "waitclose 1", "add", "add x", "add 1 2", "add -1", "prior", "pop 1", "popany x", "close now", "foo", "new", "new q", "new q x",
+var junk = []string{"add 0", "addn 3", "addn 2 0", "drain", "drain 1", "cnew", "add nil x", "addany 1", "addany 1 x", "addany x p", "addcany 2 p", "addany 3 p", "size?", "waitclose", "waitclear", "waitclose 1", "add", "add x", "add 1 2", "add -1", "prior", "pop 1", "popany x", "close now", "foo", "new", "new q", "new q x",
 	"new mq 1", "new priq", "new syncq 3", "push 1", "push 1 x", "push x 1", "len 1", "trypop", "tryclose", "tryclear", "cleared?",
 	"closed?", "len", "addc 1", "priorc 2", "push 3 1", "popany", "prior 4", "new heap 3", "ADD 1", "add 1a"}
+
+// concurrency script: consumers block on the empty queue, then items arrive one by one or in bursts, then a close
+func genConc(r *rng.R, kind string) corr.Case {
+	first := "cnew " + kind + " " + strconv.Itoa(r.PickInt(0, 0, 1, 2, 3))
+	if kind == "mq" {
+		first = fmt.Sprintf("cnew mq %d %d", r.PickInt(0, 1, 2), r.PickInt(0, 1, 2))
+	} else if kind == "syncq" {
+		first = "cnew syncq"
+	}
+	lines := []string{first}
+	next := 1
+	item := func() string {
+		if kind != "syncq" && r.Chance(1, 10) {
+			return "nil"
+		}
+		next++
+		return strconv.Itoa(next - 1)
+	}
+	ev := func(allowClose bool) string {
+		switch k := r.Intn(10); {
+		case k < 6:
+			return "add " + item()
+		case k < 7 && kind != "syncq":
+			return "prior " + item()
+		case k < 8 && kind == "mq":
+			return "addc " + item()
+		case k < 9 && allowClose:
+			return "close"
+		}
+		return "add " + item()
+	}
+	for round := 0; round < r.Range(1, 3); round++ {
+		for i := 0; i < r.Range(1, 3); i++ {
+			if kind != "syncq" && r.Chance(1, 3) {
+				lines = append(lines, "popany")
+			} else {
+				lines = append(lines, "pop")
+			}
+		}
+		if r.Chance(2, 3) {
+			var evs []string
+			for i := 0; i < r.Range(2, 3); i++ {
+				evs = append(evs, ev(i > 0))
+			}
+			lines = append(lines, "atomic "+strings.Join(evs, " ; "))
+		} else {
+			for i := 0; i < r.Range(1, 3); i++ {
+				lines = append(lines, ev(true))
+			}
+		}
+	}
+	return corr.Case{Tag: "conc-" + kind, Lines: lines}
+}
 
 func genMalformed(r *rng.R) corr.Case {
 	var lines []string
@@ -1121,6 +1256,24 @@ func fixedCases() []corr.Case {
 		mk("anyway", "new mq 1 1", "addcany 1 p", "addany 2 p", "addcany 3 p", "addany 4 p", "waitclear", "waitclose", "addcany 5 c", "waitclose", "addany 6 p", "popany", "popany", "tryclear", "waitclear"),
 		mk("anyway", "new mq 2 1", "add 1", "addc 2", "priorc 3", "priorc 4", "addany 5 p", "pop", "addcany 6 p"),
 		mk("anyway", "new q 0", "addany 1 p", "addany 2 c", "pop", "close", "addany 3 c"),
+		// nil items are handed out like any other item
+		mk("nil", "new q 2", "add nil", "add 1", "add nil", "prior nil", "pop", "pop", "popany", "close", "pop", "popany"),
+		mk("nil", "new async 0", "add nil", "add nil", "addany nil p", "pop", "popany", "pop", "pop"),
+		mk("nil", "new mux 1", "add nil", "addany 2 p", "pop", "pop"),
+		mk("nil", "new mq 1 1", "addc nil", "add nil", "addcany nil p", "pop", "pop", "priorc nil", "close", "popany", "popany"),
+		// a long backlog, drained, then single items again (ring buffers grow, shrink, may be swapped)
+		mk("bulk", "new syncq", "addn 4200 1000", "len", "drain", "len", "add 7", "pop", "pop", "add 8", "trypop", "addn 20 9000", "drain"),
+		mk("bulk", "new syncq", "addn 20 1", "drain", "addn 5000 100", "pop", "drain", "pop", "add 1", "pop", "close", "addn 3 7", "drain"),
+		mk("bulk", "new q 0", "addn 300 1", "pop", "popany", "close", "popany"),
+		// concurrency scripts (`cnew`): blocked consumers and bursts, run by the scheduler-driven runner of C13
+		mk("conc", "cnew syncq", "pop", "pop", "atomic add 1 ; add 2"),
+		mk("conc", "cnew syncq", "pop", "pop", "pop", "atomic add 1 ; add 2 ; add 3", "close"),
+		mk("conc", "cnew q 0", "pop", "atomic add 1 ; close", "popany"),
+		mk("conc", "cnew async 1", "pop", "popany", "atomic add 1 ; close"),
+		mk("conc", "cnew mux 0", "pop", "pop", "atomic add nil ; add 2 ; close"),
+		mk("conc", "cnew mq 0 0", "pop", "pop", "atomic addc 1 ; add 2", "atomic add 3 ; close"),
+		mk("conc", "cnew syncq", "addn 4200 1000", "drain", "pop", "add 7", "pop", "add 8"),
+		mk("conc", "cnew mux 1", "add 1", "addany 2", "pop", "pop", "settle", "settle"),
 	}
 	return cs
 }
@@ -1149,6 +1302,8 @@ func spec() corr.Spec {
 			switch k := r.Intn(20); {
 			case k == 0:
 				return genMalformed(r)
+			case k == 1 && kind != "priq":
+				return genConc(r, kind)
 			case k < 5:
 				return genDrain(r, kind)
 			case k < 8:
